@@ -1061,16 +1061,16 @@ package trzsz
 //@ end
 
 //@ func TrzszRelay.sendStringToClient
-//@   assigns wlog, wlen
+//@   assigns wlog, wlen, inLog, inLen, outLog, outLen
 //@ end
 //@ func TrzszRelay.sendStringToServer
-//@   assigns wlog, wlen
+//@   assigns wlog, wlen, inLog, inLen, outLog, outLen
 //@ end
 //@ func TrzszRelay.sendAction
-//@   assigns wlog, wlen
+//@   assigns wlog, wlen, inLog, inLen, outLog, outLen
 //@ end
 //@ func TrzszRelay.sendConfig
-//@   assigns wlog, wlen
+//@   assigns wlog, wlen, inLog, inLen, outLog, outLen
 //@ end
 
 // ===========================================================================
